@@ -6,7 +6,7 @@ import vlib
 from vlib import Inconclusive
 
 SPECDIR = os.path.join(vlib.SPEC, "consensus")
-_re_bad = re.compile(r'<<"VERIF_BAD", (\d+), \{(.*?)\}>>')
+_re_bad = re.compile(r'<<\s*"VERIF_BAD",\s*(\d+),\s*\{(.*?)\}\s*>>', re.S)  # TLC wraps long tuples over several lines
 
 
 def run_driver(ck, binary, mode, n, seed, outdir, extra_env=None, test="TestConsensusRuns", timeout=1500):
@@ -158,3 +158,25 @@ def run_layers(ck, plan, prefixes, conformance=True, seeds=None):
 def design_check(ck, pid):
     """Design-level TLC checks of the consensus specs for property pid (filled in per property below)."""
     return
+
+
+def attack_replays(ck, pid):
+    """Replay of TLC-generated attack schedules on real participants (filled in below when the library exists)."""
+    return
+
+
+def gst_stats(traces):
+    g = dict(gst_runs=0, runs_round_gt0_at_gst=0, runs_with_byz_before_gst=0, max_rounds_after_gst=0)
+    for t in traces:
+        for line in open(t):
+            if '"ev":"End"' not in line:
+                continue
+            e = json.loads(line)
+            if not e.get("gst"):
+                continue
+            g["gst_runs"] += 1
+            if any(p["gstround"] > 0 for p in e["parts"]):
+                g["runs_round_gt0_at_gst"] += 1
+            if e["byzdelivered"]:
+                g["runs_with_byz_before_gst"] += 1
+    return g
